@@ -623,7 +623,13 @@ def rule_duplicate_names(rep, rule="C-dupnames"):
     fn = idx.get("textgrid:openTextgrid")
     rep.functions.add(fn.qual)
     loops = [s for s in fn.node.body if isinstance(s, ast.For) and "tiers" in norm(s.iter)]
-    inits = [s for s in fn.node.body if isinstance(s, ast.Assign) and isinstance(s.value, ast.List) and not s.value.elts]
+    if len(loops) != 1:
+        rep.vanished(rule, fn.short, "for tier in tgAsDict['tiers']", "duplicate-name loop not found")
+        return
+    # local initialisations between the parse call and the loop (tierNames = [], counters, ...)
+    pos = fn.node.body.index(loops[0])
+    start = max([i for i, s in enumerate(fn.node.body[:pos]) if any(isinstance(n, ast.Call) and norm(n.func).endswith("parseTextgridStr") for n in ast.walk(s))] or [0])
+    inits = [s for s in fn.node.body[start + 1:pos] if isinstance(s, (ast.Assign, ast.AnnAssign))]
     if len(loops) != 1 or not inits:
         rep.vanished(rule, fn.short, "for tier in tgAsDict['tiers']", "duplicate-name loop not found")
         return
